@@ -79,7 +79,7 @@ def check_modules_primary(name, modules, prelude_text):
     for e in errs:
         if e.get('message', '').startswith('aborting due to'):
             continue
-        lines = []
+        lines, macros = [], []
 
         def walk(sp):
             if sp is None:
@@ -87,6 +87,9 @@ def check_modules_primary(name, modules, prelude_text):
             if sp.get('file_name', '').endswith('lib.rs'):
                 lines.append(sp['line_start'])
             if sp.get('expansion'):
+                m = sp['expansion'].get('macro_decl_name')
+                if m and m not in macros:
+                    macros.append(m)
                 walk(sp['expansion'].get('span'))
         for sp in e.get('spans', []):
             if sp.get('is_primary'):
@@ -95,7 +98,8 @@ def check_modules_primary(name, modules, prelude_text):
         if not hit:
             lost.append(e.get('message', '?'))
         for m in hit:
-            by_mod.setdefault(m, []).append(((e.get('code') or {}).get('code'), e.get('message', '')))
+            by_mod.setdefault(m, []).append(((e.get('code') or {}).get('code'),
+                                             e.get('message', '')[:160] + (' [in the expansion of %s]' % ' / '.join(macros) if macros else '')))
     if rc != 0 and not errs:
         lost.append('cargo failed without diagnostics: ' + tail[-400:])
     return {m: by_mod.get(m) for _, _, m in ranges}, lost, rc
@@ -142,6 +146,8 @@ def probes_for(it, rec, tier):
     out = []
     params = [p for p, _ in it['params']]
     for kind, traits in KIND_TRAITS.items():
+        if kind not in I.gitem_kinds(it):
+            continue
         probed = list(TRAITS) if tier == 'thorough' else traits
         for P in params:
             for tr in probed:
@@ -152,7 +158,9 @@ def probes_for(it, rec, tier):
 
 
 def instantiate(it, P=None, mark='Full'):
-    return 'crate::g_%s::%s<%s>' % (it['name'].lower(), it['name'], ', '.join('crate::' + (mark if p == P else 'Full') for p, _ in it['params']))
+    """the item with its lifetime parameters at 'static, its const parameters at 2 and its type parameters at markers"""
+    return 'crate::g_%s::%s%s' % (it['name'].lower(), it['name'],
+                                  I.gitem_inst(it, ['crate::' + (mark if p == P else 'Full') for p, _ in it['params']]))
 
 
 DECL_MAIN = '''#![allow(dead_code, unused_imports, unused_variables, unused_mut, non_camel_case_types, non_snake_case, unused_parens)]
@@ -196,16 +204,17 @@ def expected_declaration(name, params, decl):
     return name + ('<%s>' % ', '.join(ds) if ds else '')
 
 
-def declaration_stage(items, model, stats, disagreements):
+def declaration_stage(items, model, stats, disagreements, skip=()):
     """run-time `declaration()` of every item the BorshSchema derive accepts (and of its per-variant inner structs, read
     from the enum's definition) against GenericsSchema.v: `schema_declaration` of the item and of `inner_struct it v`"""
-    live = [(n, it) for n, it in enumerate(items) if model[n]['scope_ok'] and not model[n]['error'] and len(it['params']) <= 3]
+    live = [(n, it) for n, it in enumerate(items) if model[n]['scope_ok'] and not model[n]['error'] and len(it['params']) <= 3
+            and 'schema' in I.gitem_kinds(it) and n not in skip]
     src = [DECL_MAIN]
     for n, it in live:
         src.append('pub mod g_%s {\n%s\n}' % (it['name'].lower(), I.gitem_rust(it, ['BorshSchema'])))
     src.append('fn main() {')
     for n, it in live:
-        src.append('    show::<g_%s::%s<%s>>("%s");' % (it['name'].lower(), it['name'], ', '.join(INST[i] for i in range(len(it['params']))), it['name']))
+        src.append('    show::<g_%s::%s%s>("%s");' % (it['name'].lower(), it['name'], I.gitem_inst(it, INST[:len(it['params'])]), it['name']))
     src.append('}')
     d = cp.make_crate('c06_bounds_decl', {'main.rs': '\n'.join(src) + '\n'})
     cmd = ['timeout', '900', 'cargo', 'run', '--offline', '--quiet', '--target-dir', CACHE + '/target-probe' + cp.TAG]
@@ -230,11 +239,55 @@ def declaration_stage(items, model, stats, disagreements):
                                   'rust': I.gitem_rust(it, ['BorshSchema'])})
             continue
         if it['kind'] == 'enum':
-            wantv = ';'.join('%s=%s' % (v['variant'], expected_declaration(it['name'] + v['variant'], it['params'], v['decl'])) for v in rec['inner'])
+            # the entry keeps the variant's name as written (`r#type`); the inner struct is called Enum ++ Variant without
+            # the `r#` prefixes (95a0033; GenericsSchema.v `inner_struct` still concatenates the names as they are)
+            wantv = ';'.join('%s=%s' % (v['variant'], expected_declaration(I.unraw(it['name']) + I.unraw(v['variant']), it['params'], v['decl']))
+                             for v in rec['inner'])
             stats['variant_declarations_checked'] += len(rec['inner'])
             if got[1] != wantv:
                 disagreements.append({'what': 'inner structs of %s: implementation declares %s, model %s' % (it['name'], got[1], wantv),
                                       'rust': I.gitem_rust(it, ['BorshSchema'])})
+
+
+def _walk_gty(t, under=()):
+    """(wrapper kinds above, node) for every node of a type expression"""
+    yield under, t
+    k = t[0]
+    if k == 'wrap':
+        w = t[1] if isinstance(t[1], str) else t[1][0]
+        yield from _walk_gty(t[2], under + (w,))
+    elif k == 'tuple':
+        for x in t[1]:
+            yield from _walk_gty(x, under)
+    elif k == 'fn':
+        for x in t[1] + ([t[2]] if t[2] is not None else []):
+            yield from _walk_gty(x, under)
+    elif k == 'path':
+        if t[1] is not None:
+            yield from _walk_gty(t[1], under)
+        for _, args in t[4]:
+            for a in (args[1] if args is not None else []):
+                if a[0] in ('ty', 'assoc'):
+                    yield from _walk_gty(a[-1], under)
+
+
+def shapes_of(it):
+    """coverage classes of an item: which visitor arms / parameter kinds / identifier kinds it exercises"""
+    out = set()
+    sch = ':with-BorshSchema' if 'schema' in I.gitem_kinds(it) else ':without-BorshSchema'
+    if it.get('lifetimes'):
+        out.add('lifetime-param:' + it['kind'] + sch)
+    if it.get('consts'):
+        out.add('const-param:' + it['kind'] + sch)
+    names = [f['name'] for f in I.gitem_fields(it)] + [v['name'] for v in it.get('variants', [])]
+    if any(n.startswith('r#') for n in names):
+        out.add('raw-ident:' + it['kind'])
+    for f in I.gitem_fields(it):
+        for under, node in _walk_gty(f['ty']):
+            if node[0] == 'param':
+                for w in set(under) & {'slice', 'ref', 'ptr'}:
+                    out.add('param-under-%s:%s' % (w, 'skipped' if f['skip'] else 'serialized'))
+    return out
 
 
 def run_stage(driver, seed, tier, count=None):
@@ -253,21 +306,26 @@ def run_stage(driver, seed, tier, count=None):
             continue
         if not rec['eq']:
             disagreements.append({'what': 'bounds: bounds_of <> documented_bounds on %s (contradicts theorem C06_bounds)' % it['name'], 'item': I.gitem_sexp(it)})
+        kinds = I.gitem_kinds(it)
+        for sh in shapes_of(it):
+            stats['shape:' + sh] += 1
         for k, preds in rec['preds'].items():
+            if k not in kinds:
+                continue
             for subj, trs, raw in preds:
                 stats['model_predicates'] += 1
                 if subj is None:
                     disagreements.append({'what': 'bounds: predicate of %s (%s) with a subject the probe cannot evaluate: %s' % (it['name'], k, raw)})
-        derives = [KIND_DERIVE[k] for k in ('ser', 'de', 'schema') if k != 'schema' or rec['scope_ok']]
+        derives = [KIND_DERIVE[k] for k in ('ser', 'de', 'schema') if k in kinds and (k != 'schema' or rec['scope_ok'])]
         mods.append(('g_' + it['name'].lower(), I.gitem_rust(it, derives)))
         meta['g_' + it['name'].lower()] = ('item', n, None)
-        if not rec['scope_ok']:
+        if not rec['scope_ok'] and 'schema' in kinds:
             stats['schema_scope_predicted_bad'] += 1
             scope_mods.append(('s_' + it['name'].lower(), I.gitem_rust(it, ['BorshSchema']), n))
         if it.get('noprobe'):
             continue
         for kind in KIND_TRAITS:
-            if kind == 'schema' and not rec['scope_ok']:
+            if kind not in kinds or (kind == 'schema' and not rec['scope_ok']):
                 continue
             name = 'c_%s_%s' % (it['name'].lower(), kind)                       # positive control: everything at Full
             mods.append((name, 'pub fn p() { crate::%s::<%s>(); }' % (KIND_NEED[kind], instantiate(it))))
@@ -279,6 +337,13 @@ def run_stage(driver, seed, tier, count=None):
             mods.append((name, 'pub fn p() { crate::%s::<%s>(); }' % (KIND_NEED[kind], instantiate(it, P, marker(level, tr)))))
             meta[name] = ('probe', n, (kind, P, tr, level, expect, why))
     res, lost, rc = check_modules_primary('c06_bounds', mods, prelude())
+    first_broken = {meta[name][1] for name, errs in res.items() if meta[name][0] == 'item' and errs is not None}
+    if first_broken:
+        # items whose derives do not compile are reported below; a resolution error among them (E0401 / E0261 / E0425 in an
+        # emitted inner struct) stops rustc before type checking and would make every probe look accepted: once more without them
+        stats['bounds_crate_rebuilt_without_broken_items'] = len(first_broken)
+        res2, lost, rc = check_modules_primary('c06_bounds', [(nm, b) for nm, b in mods if meta[nm][1] not in first_broken], prelude())
+        res = dict([(nm, e) for nm, e in res.items() if meta[nm][1] in first_broken] + list(res2.items()))
     if lost:
         disagreements.append({'what': 'bounds probe: diagnostics that could not be attributed: ' + '; '.join(lost[:3])})
     broken_items = set()
@@ -289,8 +354,8 @@ def run_stage(driver, seed, tier, count=None):
             broken_items.add(n)
             failures.append({'class': 'generic-item-does-not-compile', 'key': it['name'],
                              'what': 'the derives on %s do not compile (the model gives it the where-clauses %s): %s %s'
-                                     % (it['name'], {k: [r for _, _, r in v] for k, v in model[n]['preds'].items()}, errs[0][0], errs[0][1][:200]),
-                             'rust': I.gitem_rust(it)})
+                                     % (it['name'], {k: [r for _, _, r in v] for k, v in model[n]['preds'].items() if k in I.gitem_kinds(it)}, errs[0][0], errs[0][1][:300]),
+                             'rust': I.gitem_rust(it, [KIND_DERIVE[k] for k in I.gitem_kinds(it)])})
     for name, errs in res.items():
         what, n, info = meta[name]
         it = items[n]
@@ -343,10 +408,28 @@ def run_stage(driver, seed, tier, count=None):
                                  'rust': src})
         if lost2:
             disagreements.append({'what': 'schema scope probe: diagnostics that could not be attributed: ' + '; '.join(lost2[:3])})
-    declaration_stage(items, model, stats, disagreements)
+    # ---- the shape kept out of the BorshSchema corpus (finding F19, gen/items.py gen_bounds_item2): reported under its own failure class
+    cand = [(n, it) for n, it in enumerate(items) if it.get('candidate') == 'schema-inner-struct-unused-lifetime' and model[n]['scope_ok']]
+    if cand:
+        res3, lost3, rc3 = check_modules_primary('c06_bounds_lifetime', [('l_' + it['name'].lower(), I.gitem_rust(it, ['BorshSchema'])) for _, it in cand],
+                                                 prelude())
+        for n, it in cand:
+            errs = res3.get('l_' + it['name'].lower())
+            stats['evaluations'] += 1
+            stats['candidate:enum-variant-without-the-lifetime:BorshSchema-' + ('compiles' if errs is None else 'refused-' + str(errs[0][0]))] += 1
+            if errs is not None:       # finding F19: the serialization derives accept the item, the schema derive does not
+                failures.append({'class': 'schema-inner-struct-unused-lifetime', 'key': it['name'],
+                                 'what': 'derive(BorshSchema) on %s does not compile (%s: %s): the inner struct of a variant that does not mention the '
+                                         'enum\'s lifetime parameter still declares it; BorshSerialize / BorshDeserialize accept the definition'
+                                         % (it['name'], errs[0][0], errs[0][1][:80]),
+                                 'rust': I.gitem_rust(it, ['BorshSchema'])})
+    declaration_stage(items, model, stats, disagreements, skip=broken_items)
     ev = {'bounds_items': stats['bounds_items'], 'bounds_stats': dict(stats), 'bounds_samples': samples,
           'bounds_rule': 'generic items from gen/items.py gen_bounds_items (rustdoc examples, the generic items of the main corpus, seeded items over '
                          'param / Vec / Option / Box / array / tuple / paren / PhantomData / P::A / Vec<P::A> / <P as Tr>::A / HashMap with bound overrides / '
-                         'skipped fields (plain, bound(deserialize = ""), fn pointer, PhantomData, P::A) / schema(params) / type macros / defaulted parameters); '
+                         'skipped fields (plain, bound(deserialize = ""), fn pointer, PhantomData, P::A) / schema(params) / type macros / defaulted parameters; '
+                         'second family: Box<[P]> / Cow<\'a, [P]> / &\'a P / &\'a [P] (serialized: BorshSerialize only; skipped: all derives) / skipped '
+                         'Option<*const P> / [P; N], lifetime and const generic parameters (at \'static and 2 in the probes), raw identifiers as field and '
+                         'variant names: counts under bounds_stats shape:*); '
                          'one probe = (derive, parameter, trait, self | associated type): refused by rustc <-> the model lists a predicate with that subject and trait'}
     return ev, disagreements, failures
